@@ -985,7 +985,7 @@ _ALL = CP_BASE + NONCP
 _CHANNELISH = ("stinespring", "unitary", "mixed_unitary")
 
 SUBCHECKS = [
-    SubCheck("cp_hp_positive", check_cp_hp_positive, lambda: _map_case(), _label, quick=5000, thorough=80000, shards=8),
+    SubCheck("cp_hp_positive", check_cp_hp_positive, lambda: _map_case(), _label, quick=5000, thorough=80000, shards=8, fuzz=6000),
     SubCheck("tp_pairs_choi", check_tp_pairs_choi, lambda: _map_case(), _label, quick=5000, thorough=80000, shards=4),
     SubCheck("tp_cp_lists", check_tp_cp_lists, lambda: _map_case(fams=CP_BASE, perts=("tp", "unital")), _label, quick=2500, thorough=40000, shards=2),
     SubCheck("unital", check_unital, lambda: _map_case(), _label, quick=5000, thorough=80000, shards=4),
@@ -993,7 +993,7 @@ SUBCHECKS = [
     SubCheck("channel_square", check_channel_square, lambda: _map_case(dims="square"), _label, quick=5000, thorough=80000, shards=6),
     SubCheck("channel_rect_kraus", check_channel_rect_kraus, lambda: _map_case(fams=("stinespring", "unital_dual", "cp_generic", "hp_not_cp", "non_hp"), dims="rect"), _label, quick=2500, thorough=40000, shards=3),
     SubCheck("choi_rank", check_choi_rank, lambda: _map_case(), _label, quick=5000, thorough=80000, shards=4),
-    SubCheck("extremal", check_extremal, lambda: _map_case(fams=_CHANNELISH, perts=("unital",)), _nt_extremal, quick=5000, thorough=80000, shards=4),
+    SubCheck("extremal", check_extremal, lambda: _map_case(fams=_CHANNELISH, perts=("unital",)), _nt_extremal, quick=5000, thorough=80000, shards=4, fuzz=4000),
     SubCheck("depolarizing_dephasing", check_dep, _dep_case, _nt_dep, quick=5000, thorough=80000, shards=4),
     SubCheck("qubit_noise", check_qubit, _qubit_case, _nt_qubit, quick=6000, thorough=100000, shards=4),
     SubCheck("pauli_channel", check_pauli, _pauli_case, _nt_pauli, quick=3000, thorough=50000, shards=4),
